@@ -283,7 +283,7 @@ def explore(pid, tier, seed, verdict, full=True):
                 else:
                     key = k
                     fac = res_bad = False
-                relevant = (pid == "C20" and ((k == "Attack" and fac) or k in ("SFacEnter", "LStep", "AfterThrow"))) or \
+                relevant = (pid == "C20" and ((k == "Attack" and fac) or k in ("SFacEnter", "LStep", "AfterThrow") or (k == "SHammer" and e.get("race") == 1))) or \
                            (pid == "C13" and ((k == "Attack" and res_bad) or k in ("LStep", "SRet", "SFacEnter", "SHammer", "FirstUse", "Reentrant", "AtExit"))) or \
                            (pid == "C14" and k in ("LStep", "SRet", "SFacEnter", "Reentrant"))      # the name cache is invisible
                 if pid == "C14":
